@@ -120,5 +120,28 @@ SPECS.update({
 })
 
 
+def extra_plan(mode, bufs=(2,)):
+    def plan(tier):
+        bb = bufs if tier == "quick" else tuple(sorted(set(bufs) | {1, 2}))
+        return [dict(defs=defs(b), args=dict(mode=mode, bufsz=b, hbufsz=2), nshards=16) for b in bb]
+    return plan
+
+
+SPECS.update({
+    "C13": dict(
+        harness="fextra", src=["harness/fextra.cpp"], plan=extra_plan("c13"), level="fault_enumeration",
+        rule="execute_encrypt writes through a fopencookie stream that logs every (offset, bytes) stdio hands down, for stdio buffer modes {default, unbuffered, 64-byte}; grid 5 cipher x 3 hash modes x T in {1,2,4} x 6 sizes "
+             "(quick: a third of the product); EVERY prefix of the write log and EVERY byte prefix inside every write is materialised as a file and given to verify and decrypt; "
+             "oracle: a state is accepted only if its bytes equal the complete file, and the complete file is accepted; one evaluation = verify+decrypt of one distinct crash state; distinct = grid cell",
+        assumptions=ASSUME_FILE + ["crash model = process death: writes reach the file in issue order, the last one possibly torn at any byte; no power-failure reordering (the property does not ask for it)"]),
+    "C18": dict(
+        harness="fextra", src=["harness/fextra.cpp"], plan=extra_plan("c18", bufs=(1, 2)), level="exploration",
+        rule="T=2..16 (quick: T<=4 fully, larger T on a 1/4 lattice), cipher modes 1..4, 5 seeds, plaintexts of 2T+1 chunks with (a) equal chunks (b) distinct chunks, chunk size 1 and 2 blocks; checks: IV fields pairwise distinct and seed dependent, "
+             "ciphertext seed dependent, no two streams start from the same value (equal plaintext chunks must not give equal ciphertext chunks; CTR/OFB: C_i xor C_j != P_i xor P_j); a violation is keyed by its cause "
+             "(whole file equals the reference in which every stream starts from IV[0] => stream-start-iv:shared-with-stream-0)",
+        assumptions=ASSUME_FILE),
+})
+
+
 def run(pid, tier, replay=None):
     return casecheck.run_spec(pid, tier, SPECS[pid], replay=replay)
